@@ -30,3 +30,43 @@ func VH_C13_FreshIDsDistinctSorted() {
 	vAssert("list_sorted", l[0] == a && l[1] == c)
 	vAssert("deleted_gone", cm.Get(b.ID) == nil)
 }
+
+// The user list handed to a handler is a snapshot: later registry changes and later List calls do not alter it
+// (a handler walking its recipient list while other users connect/disconnect still reaches each user once).
+func VH_C13_ListIsSnapshot() {
+	cm := NewMemClientMgr()
+	a, b, c := &ClientConn{}, &ClientConn{}, &ClientConn{}
+	cm.Add(a)
+	cm.Add(b)
+	cm.Add(c)
+	l1 := cm.List()
+	vAssert("first_list", len(l1) == 3 && l1[0] == a && l1[1] == b && l1[2] == c)
+	cm.Delete(b.ID)
+	l2 := cm.List()
+	vAssert("second_list", len(l2) == 2 && l2[0] == a && l2[1] == c)
+	vAssert("first_list_unchanged_by_later_calls", len(l1) == 3 && l1[0] == a && l1[1] == b && l1[2] == c)
+	d := &ClientConn{}
+	cm.Add(d)
+	l3 := cm.List()
+	vAssert("third_list", len(l3) == 3 && l3[2] == d)
+	vAssert("second_list_unchanged_by_later_calls", len(l2) == 2 && l2[0] == a && l2[1] == c)
+}
+
+// A departing user is announced to every other user whatever its display name is (including none yet).
+func VH_C13_DepartureAlwaysAnnounced() {
+	srv, _ := NewServer()
+	srv.Logger = vLogger()
+	vStartOutbox(srv)
+	mk := func(name []byte) (*ClientConn, *vRecConn) {
+		c := &vRecConn{}
+		cc := &ClientConn{Connection: c, Server: srv, Account: &Account{}, UserName: name}
+		srv.ClientMgr.Add(cc)
+		return cc, c
+	}
+	a, _ := mk([]byte("a"))
+	target, _ := mk(vBytesEach("name", 2))
+	target.Disconnect()
+	out := vDrainOutbox(srv)
+	vAssert("departure_announced_once", len(out) == 1 && out[0].ClientID == a.ID && out[0].Type == TranNotifyDeleteUser)
+	vAssert("departed_not_listed", len(srv.ClientMgr.List()) == 1)
+}
